@@ -118,10 +118,17 @@ class _GraphIO(collections.UserList["_core.Value"]):
         if isinstance(item, Iterable) and isinstance(i, slice):
             # Modify a slice of the list
             item = tuple(item)
+            old_values = self.data[i]
             # Validate the new values before releasing the old ones
+            if i.step not in (None, 1) and len(item) != len(old_values):
+                # The list rejects this as well, but only after the ownership has changed
+                raise ValueError(
+                    f"attempt to assign sequence of size {len(item)} "
+                    f"to extended slice of size {len(old_values)}"
+                )
             for value in item:
                 self._check_can_set_graph(value)
-            for value in self.data[i]:
+            for value in old_values:
                 self._maybe_unset_graph(value)
             for value in item:
                 self._set_graph(value)
